@@ -112,6 +112,8 @@ def untracked_fields(prog):
                 if l.get("pd") or l.get("r") or l.get("en"):
                     continue
                 key = (l.get("rec"), l["f"])
+                if x["op"] in ("|=", "&=", "^="):
+                    continue  # bit masks of small constants stay tracked
                 if x["op"] != "=":
                     out.add(key)
                     continue
@@ -1182,10 +1184,13 @@ class Explorer:
     where the callable performs the call(s) and returns the resulting
     inter-call states (or None to stop exploring that branch)."""
 
-    def __init__(self, interp, ops, max_states=20000):
+    def __init__(self, interp, ops, max_states=20000, bfs=False, on_bound="truncate"):
         self.interp = interp
         self.ops = ops
         self.max_states = max_states
+        self.bfs = bfs                 # breadth first: all short histories first
+        self.on_bound = on_bound       # "truncate" (analysis broken) | "stop" (bounded exploration)
+        self.bounded = False
         self.states = {}
         self.transitions = 0
         self.witness = {}
@@ -1200,7 +1205,7 @@ class Explorer:
                 self.witness[k] = [label]
                 work.append(st)
         while work:
-            st = work.pop()
+            st = work.pop(0) if self.bfs else work.pop()
             w = self.witness[st.key()]
             for name, op in self.ops:
                 self.interp.cur_witness = w + [name]
@@ -1213,8 +1218,11 @@ class Explorer:
                     k = st2.key()
                     if k not in self.states:
                         if len(self.states) >= self.max_states:
-                            self.interp.truncated.append("state bound")
-                            return
+                            self.bounded = True
+                            if self.on_bound == "truncate":
+                                self.interp.truncated.append("state bound")
+                                return
+                            continue   # keep applying ops to known states only
                         self.states[k] = st2
                         self.witness[k] = w + [label]
                         work.append(st2)
